@@ -11,12 +11,12 @@ import (
 )
 
 func c15EmptySvc(image string) c15Svc {
-	return c15Svc{Image: image, Profiles: []string{}, Deps: map[string]c15Dep{}, Nets: []string{}, Vols: [][2]string{}, Secrets: []string{}, Configs: []string{}}
+	return c15Svc{Image: image, Profiles: []string{}, Deps: map[string]c15Dep{}, Nets: []string{}, Vols: [][2]string{}, Secrets: []string{}, Configs: []string{}, Env: map[string]*string{}}
 }
 
 func c15EmptyState() c15State {
 	return c15State{Services: map[string]c15Svc{}, Disabled: map[string]c15Svc{}, Profiles: []string{},
-		Networks: map[string]string{}, Volumes: map[string]string{}, Secrets: map[string]string{}, Configs: map[string]string{}}
+		Networks: map[string]string{}, Volumes: map[string]string{}, Secrets: map[string]string{}, Configs: map[string]string{}, Environment: map[string]string{}}
 }
 
 // every non-empty subset of names (in order)
@@ -79,6 +79,8 @@ func c15SmallProjects(n int, emit func(c15State)) {
 				x /= 3
 				switch i {
 				case 0:
+					unset, set := (*string)(nil), "own"
+					s.Env = map[string]*string{"A": unset, "B": &set, "Z": unset}
 					s.Nets = []string{"n1"}
 					s.Vols = [][2]string{{"volume", "v1"}, {"bind", "v2"}}
 				case 1:
@@ -105,6 +107,7 @@ func c15SmallProjects(n int, emit func(c15State)) {
 			st.Volumes = map[string]string{"v1": "V1", "v2": "V2"}
 			st.Secrets = map[string]string{"s1": "S1", "s2": "S2", "s3": "S3"}
 			st.Configs = map[string]string{"c1": "C1", "c2": "C2"}
+			st.Environment = map[string]string{"A": "proj-A", "B": "proj-B"}
 			emit(st)
 		}
 	}
@@ -146,6 +149,20 @@ func c15RandSvc(r *rand.Rand, name string) c15Svc {
 		s.Build = &b
 	}
 	s.Configs = c15Pick(r, []string{"c0", "c1", "c2"}, 0.25)
+	if r.Intn(3) == 0 { // environment: some variables with a value, some listed without one
+		for _, k := range c15Pick(r, []string{"A", "B", "C", "D"}, 0.5) {
+			switch r.Intn(3) {
+			case 0:
+				s.Env[k] = nil
+			case 1:
+				v := ""
+				s.Env[k] = &v
+			default:
+				v := "svc-" + k
+				s.Env[k] = &v
+			}
+		}
+	}
 	return s
 }
 
@@ -253,6 +270,9 @@ func c15RandProject(r *rand.Rand, malformed bool) (c15State, []string) {
 	}
 	for _, k := range c15Pick(r, []string{"c0", "c1", "c2", "c3"}, 0.6) {
 		st.Configs[k] = "C-" + k
+	}
+	for _, k := range c15Pick(r, []string{"A", "B", "C"}, 0.5) {
+		st.Environment[k] = []string{"proj-" + k, ""}[r.Intn(2)]
 	}
 	return st, all
 }
